@@ -41,6 +41,19 @@ for _p in ["C01", "C02", "C03", "C04", "C05", "C06", "C07", "C08", "C09", "C14",
     GEN_SECTIONS.setdefault(_p, []).append(f"defaults_{_p}")
 
 
+# The translated method bodies (translator/frag.py -> Gen.frag_table) and the files that prove them equal to model/Query.v.
+# group -> (the functions whose translation it reads, the groups it builds on); property -> the groups its model functions live in
+FRAG_GROUPS = {
+    "base": (["_split", "format_curie", "standardize_prefix", "standardize_identifier", "parse_uri"], []),
+    "uri": (["compress", "is_uri", "compress_strict"], ["base"]),
+    "curie": (["parse_curie", "expand_reference", "expand_pair", "expand", "is_curie", "expand_strict"], ["base"]),
+    "all": (["get_record", "expand_pair_all", "expand_all"], ["base", "curie"]),
+    "std": (["standardize_curie", "standardize_uri"], ["base", "curie"]),
+    "mixed": (["parse", "compress_or_standardize", "expand_or_standardize"], ["base", "uri", "curie"]),
+}
+FRAG_OF = {"C01": ["base", "uri"], "C02": ["base", "curie", "all"], "C03": ["base", "uri", "curie"], "C06": ["base", "curie", "std"],
+           "C07": ["base", "uri", "curie", "mixed"], "C08": ["base", "uri", "curie", "all", "std", "mixed"]}
+
 BATCH = int(os.environ.get("VERIF_BATCH", "6000"))
 
 
@@ -151,7 +164,42 @@ def obligations(pid: str):
         names += thms
         if closed < n:
             broken.append(f"{os.path.relpath(f, ROOT)}: {n - closed} theorem(s) depend on axioms: {axioms}")
-    return {"obligations": total, "discharged": done, "broken": broken, "axioms": axioms, "theorems": names}
+    # the source tie of the query methods: translated bodies proved equal to the model, group by group.  A group that reads a
+    # function the translator could not translate (the source left the fragment of Python that model/PyFrag.v gives a meaning to)
+    # is INAPPLICABLE to this tree: the tie falls back to the correspondence alone and the run widens its search; a group whose
+    # functions were all translated and whose proof no longer compiles is a broken obligation like any other
+    source_tie = None
+    if pid in FRAG_OF:
+        failed = {}
+        try:
+            failed = json.load(open(os.path.join(COQ, "gen", "Gen.v.status.json")))
+        except Exception as e:
+            failed = {"frag": f"no translator status: {e!r}"}
+        source_tie = {"proved_groups": [], "inapplicable": {}, "broken": []}
+        for g in FRAG_OF[pid]:
+            fns, deps = FRAG_GROUPS[g]
+            needed = [f for d in deps + [g] for f in FRAG_GROUPS[d][0]]
+            na = {f: failed[k] for f in needed for k in (f"frag_{f}", "frag") if k in failed}
+            if na:
+                source_tie["inapplicable"][g] = na
+                continue
+            f = os.path.join(COQ, "gen", f"FragObl_{g}.v")
+            src = re.sub(r"\(\*.*?\*\)", "", open(f).read(), flags=re.S) if os.path.exists(f) else ""
+            n = len(re.findall(r"Print Assumptions", src))
+            total += n
+            with open(os.path.join(ROOT, "_build", "lock"), "w") as lk:
+                fcntl.flock(lk, fcntl.LOCK_EX)
+                r = sh(f"timeout 900 coqc -Q {COQ} Curies {f}")
+            closed = len(re.findall(r"Closed under the global context", r.stdout)) if r.returncode == 0 else 0
+            if r.returncode != 0 or closed < n:
+                msg = f"gen/FragObl_{g}.v (the translated bodies of {', '.join(fns)} are no longer proved equal to model/Query.v): " + (r.stderr or r.stdout)[-1200:]
+                broken.append(msg)
+                source_tie["broken"].append(g)
+                continue
+            done += closed
+            names += re.findall(r"(?m)^Lemma (frag_\w+)", src)
+            source_tie["proved_groups"].append(g)
+    return {"obligations": total, "discharged": done, "broken": broken, "axioms": axioms, "theorems": names, "source_tie": source_tie}
 
 
 # ------------------------------------------------------------------ known findings
@@ -489,6 +537,12 @@ def run_check(plug: Plugin, tier: str, seed: int, level_note=""):
     exh = plug.exhaustive(tier)
     cases += exh
     n = plug.counts[tier]
+    st = obl.get("source_tie")
+    escalated = bool(st and (st["inapplicable"] or st["broken"]))
+    if escalated and tier == "quick":
+        # the query methods of this tree are no longer (all) the ones the model is proved equal to: look harder
+        n *= 4
+        log(f"[{pid}] source tie: inapplicable {sorted(st['inapplicable'])}, broken {st['broken']}: the run evaluates {n} generated cases instead of {plug.counts[tier]}")
     total_cases = len(cases) + n
     log(f"[{pid}] {total_cases} cases ({ncorpus} corpus, {len(exh)} exhaustive block); observing the implementation ...")
     known = [k for k in load_known() if k.get("property") == pid and k.get("status") == "known"]
@@ -687,6 +741,7 @@ def run_check(plug: Plugin, tier: str, seed: int, level_note=""):
             "coqchk": coqchk,
             "extraction_cross_check": xcheck,
             "runtime_model_validation": runtime_validation,
+            "source_tie": (dict(obl["source_tie"], search_escalated=escalated) if obl.get("source_tie") else None),
             "broken_obligations": obl["broken"],
             "evaluations": evaluations,
             "distinct_nontrivial": len(nontriv),
